@@ -288,7 +288,10 @@ static void c10_lin_child(const void *job, size_t n) {
 	res_printf("O %llx %llx\n", (unsigned long long) h.a, (unsigned long long) h.b);
 	hx_emit_trace(); res_finish();
 }
-static void run_lin(int thorough, long *execs, long *states, long *transitions, int *exhaustive) {
+/* also used by C09 and C07 (the optimistic effect of concurrent commands), with their own bound */
+void c10_run_lin(int bound, long *execs, long *states, long *transitions, int *exhaustive);
+static void run_lin(int thorough, long *execs, long *states, long *transitions, int *exhaustive) { c10_run_lin(thorough ? 3 : 2, execs, states, transitions, exhaustive); }
+void c10_run_lin(int bound, long *execs, long *states, long *transitions, int *exhaustive) {
 	long sched = 0, npairs = 0, commuting = 0; int minb = 9;
 	for (int a = 0; a < N_LIN; a++) for (int b = a; b < N_LIN; b++) {
 		if (rep_elapsed() > rep_deadline_s) { *exhaustive = 0; break; }
@@ -300,7 +303,7 @@ static void run_lin(int thorough, long *execs, long *states, long *transitions, 
 		if (e[0] == e[2] && e[1] == e[3]) commuting++;
 		uint8_t param[3 + 32] = {(uint8_t) a, (uint8_t) b, 0}; memcpy(param + 3, e, 32);
 		char label[300]; snprintf(label, sizeof label, "H6 %s || %s", LINNAME[a], LINNAME[b]);
-		e1_spec_t s = { .harness = "c10.lin", .param = param, .nparam = sizeof param, .bound = thorough ? 3 : 2, .label = strdup(label) };
+		e1_spec_t s = { .harness = "c10.lin", .param = param, .nparam = sizeof param, .bound = bound, .label = strdup(label) };
 		e1_explore(&s); for (int k = 0; k < 8; k++) sched += s.schedules_by_cost[k]; npairs++; *states += s.distinct_outcomes; *transitions += s.choice_points; if (!s.exhaustive) *exhaustive = 0; if (s.completed_bound < minb) minb = s.completed_bound;
 	}
 	*execs += sched;
